@@ -331,7 +331,7 @@ def generate(rng, tier):
         o = _curve(rng, p=rng.randint(2, 5) if i % 4 else rng.randint(1, 2), periodic=(i % 3 == 0), n_interior=rng.randint(1, 4),
                    clamped=(i % 7 != 1))
         specs.append({'kind': 'split_append', 'obj': o, 'knots': _valid_split_set(rng, o), 'assoc': rng.choice(['left', 'right']),
-                      'raise': (i % 10 == 9)})
+                      'raise': (i % 10 == 9 and i % 7 != 1)})   # raised pieces only on clamped curves (raise_order itself is C05's subject)
     # --- subdivide
     for i in range(36 if quick else 400):
         pardim = [1, 2, 1, 2, 3, 1][i % 6]
@@ -408,8 +408,15 @@ def _split_append(sp, s):
     r = o.split(list(s['knots']), 0)
     pieces = r if isinstance(r, list) else [r]
     if s.get('raise'):
-        pieces[len(pieces) // 2].raise_order(1)
+        try:
+            pieces[len(pieces) // 2].raise_order(1)
+        except Exception:  # noqa: BLE001 - order raising is property C05's subject, not this one's
+            raise _NoClaim()
     return _append_all(pieces, s.get('assoc', 'left'))
+
+
+class _NoClaim(Exception):
+    pass
 
 
 def _subdivide(sp, s):
@@ -509,6 +516,8 @@ def oracle(sp, s):
     if k == 'split_append':
         try:
             r = _split_append(sp, s)
+        except _NoClaim:
+            return []
         except Exception as e:  # noqa: BLE001
             return ['split + append raised %s: %s' % (type(e).__name__, e)]
         info = gen.basis_info(s['obj']['bases'][0])
@@ -595,8 +604,17 @@ def classify(s, res=None):
                 return 'split-periodic-small-basis'
         return None
     if k == 'split_append':
-        if s['obj']['bases'][0]['periodic'] >= 0 and _small_periodic(s['obj'], 0):
+        b = s['obj']['bases'][0]
+        if b['periodic'] >= 0 and _small_periodic(s['obj'], 0):
             return 'split-periodic-small-basis'
+        if b['order'] == 1:
+            return 'append-order-1-pieces'
+        info = gen.basis_info(b)
+        T = info['end'] - info['start']
+        for x in s['knots']:
+            xs = [x, x - T, x + T] if b['periodic'] >= 0 else [x]
+            if any(_mult(b, y) >= b['order'] for y in xs):
+                return 'append-at-discontinuous-knot'
         return None
     if k == 'subdivide':
         o = s['objs'][0]
